@@ -75,7 +75,7 @@ def setup(E):
         ensures=["result == sel(child, parent, 0)"],
         locals={"result": "Seq[Elem]"},
         loops={0: LoopSpec(
-            header="while child", index="k",
+            header="while child", index="k", decreases="child",
             invariants=[
                 "0 <= child",
                 "0 <= parent_i and parent_i <= len(parent)",
